@@ -2,7 +2,7 @@
    sizes.  Statements only; proofs in Proofs/ChunkProofs.v, ChunkRoundtrip.v. *)
 From Coq Require Import Init.Byte.
 From Hio Require Import Base.Prelude Model.HttpLine Model.Chunk
-  Proofs.HttpLineProofs Proofs.ChunkProofs.
+  Proofs.HttpLineProofs Proofs.ChunkProofs Proofs.ChunkRoundtrip.
 
 (* Strictness.  A chunk-size line whose size field (the text before the first
    ';', blanks and tabs around it removed) is not 1*HEXDIG makes parseChunk
@@ -33,6 +33,76 @@ Print Assumptions C17_never_reinterpreted.
 Theorem C17_fragmentation : forall reads, decode_reads reads = decode (concat reads).
 Proof. exact decode_reads_concat. Qed.
 Print Assumptions C17_fragmentation.
+
+(* Round trip.  For every list of chunks (non-empty data; the size written in
+   ANY hex spelling of the data length: case, leading zeros; any extension
+   text that is empty or starts with ';' and has no CR), any spelling 1*"0" of
+   the last-chunk, any last-chunk extension text, up to 100 trailers (name
+   without ':' or LF, value without LF), and any bytes following the message:
+   decoding yields exactly that body, those extension parameters, those
+   trailers, and leaves exactly the following bytes. *)
+Theorem C17_roundtrip : forall cs zeros lastext trs tail,
+  Forall wf_chunk cs -> zeros_ok zeros -> ext_text_ok lastext ->
+  (lenN (zeros ++ lastext) <= max_line)%N ->
+  Forall wf_trailer trs -> length trs <= max_headers ->
+  decode (encode_chunked cs zeros lastext trs ++ tail) =
+  DOk {| d_body := concat (map e_data cs);
+         d_parms := parms_of (sent_chunks cs lastext trs);
+         d_trails := trails_fold [] trs;
+         d_rest := tail |}.
+Proof. exact decode_encoded. Qed.
+Print Assumptions C17_roundtrip.
+
+(* "those extensions": the parameters of a chunk whose extension text was
+   rendered from a list of (name, optional value) tokens are that list read
+   as a dict (sent_chunks uses ext_parms of the text). *)
+Theorem C17_extensions : forall l, Forall wf_extnv l ->
+  ext_text_ok (render_exts l) /\
+  ext_parms (render_exts l) = fold_left (fun p nv => dset p (fst nv) (snd nv)) l [].
+Proof. intros l H. split; [apply render_exts_ok; exact H|apply ext_parms_render; exact H]. Qed.
+Print Assumptions C17_extensions.
+
+(* ... and in any fragmentation (with C17_fragmentation). *)
+Theorem C17_roundtrip_any_reads : forall reads cs zeros lastext trs tail,
+  Forall wf_chunk cs -> zeros_ok zeros -> ext_text_ok lastext ->
+  (lenN (zeros ++ lastext) <= max_line)%N ->
+  Forall wf_trailer trs -> length trs <= max_headers ->
+  concat reads = encode_chunked cs zeros lastext trs ++ tail ->
+  decode_reads reads =
+  DOk {| d_body := concat (map e_data cs);
+         d_parms := parms_of (sent_chunks cs lastext trs);
+         d_trails := trails_fold [] trs;
+         d_rest := tail |}.
+Proof.
+  intros reads cs zeros lastext trs tail H1 H2 H3 H4 H5 H6 E.
+  rewrite decode_reads_concat, E. apply decode_encoded; assumption.
+Qed.
+Print Assumptions C17_roundtrip_any_reads.
+
+(* hio's own sender: packChunk ("%x" CRLF data CRLF) for every sequence of
+   non-empty messages shorter than 65536 bytes each (the "%x" rendering is
+   checked for every such length by computation), then b"0\r\n\r\n". *)
+Theorem C17_packchunk : forall msgs tail,
+  Forall (fun m => m <> [] /\ (lenN m < 65536)%N) msgs ->
+  decode (concat (map pack_chunk msgs) ++ last_chunk_plain ++ tail) =
+  DOk {| d_body := concat msgs; d_parms := []; d_trails := []; d_rest := tail |}.
+Proof. exact decode_packed. Qed.
+Print Assumptions C17_packchunk.
+
+(* Non-vacuity of the round trip: two chunks, sizes spelled "5" and "00A",
+   extensions ;a=b;n and none, last-chunk "0;z=1", trailers X-T: v, x-t: w,
+   Y: (empty), pipelined tail "zz". *)
+Example C17_roundtrip_example :
+  let c1 := {| e_hex := of_bytes [x35]; e_ext := render_exts [(of_bytes [x61], Some (of_bytes [x62])); (of_bytes [x6e], None)];
+               e_data := of_bytes [x68;x65;x0d;x0a;x6c] |} in
+  let c2 := {| e_hex := of_bytes [x30;x30;x41]; e_ext := []; e_data := of_bytes [x30;x31;x32;x33;x34;x35;x36;x37;x38;x39] |} in
+  let trs := [(of_bytes [x58;x2d;x54], of_bytes [x76]); (of_bytes [x78;x2d;x74], of_bytes [x77]); (of_bytes [x59], [])] in
+  decode (encode_chunked [c1; c2] (of_bytes [x30]) (render_exts [(of_bytes [x7a], Some (of_bytes [x31]))]) trs ++ of_bytes [x7a;x7a])
+  = DOk {| d_body := of_bytes [x68;x65;x0d;x0a;x6c;x30;x31;x32;x33;x34;x35;x36;x37;x38;x39];
+           d_parms := [(of_bytes [x61], Some (of_bytes [x62])); (of_bytes [x6e], None); (of_bytes [x7a], Some (of_bytes [x31]))];
+           d_trails := [(of_bytes [x78;x2d;x74], of_bytes [x77]); (of_bytes [x79], [])];
+           d_rest := of_bytes [x7a;x7a] |}.
+Proof. vm_compute. reflexivity. Qed.
 
 (* Non-vacuity: the sizes the unfixed code accepted (D16) are rejected, plain
    ones are read exactly. *)
